@@ -38,3 +38,14 @@ Theorem C08_sums_ignore_invalid b b' kh kw i j : blk_agree b b' ->
   sums_rel 1 1 (ksums b kh kw i j) (ksums b' kh kw i j).
 Proof. intros H. apply ksums_rel. apply blk_agree_rel. exact H. Qed.
 Print Assumptions C08_sums_ignore_invalid.
+
+(* ---- tie to the source (gen/Pipeline.v, regenerated on every run by translate/pipeline.py from kernel_model.RefSpaceModel / SrcSpaceModel,
+        fuse._process_block / process, compare.get_block_sums) *)
+From HV Require Import Kernel.Flow Tie.PipelineTie.
+From HVgen Require Import Pipeline.
+(* the fitters zero and normalise their input arrays in place; in the CURRENT source they never see the caller's source block: on the
+   reference grid they get its re-projection, on the source grid a copy - so what is hidden under invalid pixels of the block that is later
+   multiplied by the gain is never modified, and never read by the fit *)
+Theorem C08_source_fit_works_on_copies : Pipeline.translation_failed = false /\ gen_ref_fit_ok = true /\ gen_src_fit_ok = true /\ gen_src_fit_copies_source = true.
+Proof. destruct (pipeline_tied0 true) as (A & _ & _ & (_ & _ & B & _ & C & D & _)). repeat split; assumption. Qed.
+Print Assumptions C08_source_fit_works_on_copies.
